@@ -9,6 +9,10 @@ TECH = "deterministic simulation with fault injection: seeded search over genera
 
 CLAIMED = {
     # id: (design_ref, level text, level note, technique suffix)
+    "C01": ("DESIGN.md 5.C01",
+            "Seeded exploration: generated route sets (static/:param segments chosen to collide on byte prefixes, depth 1..4, method subsets, nested mounts with static and param prefixes) are served by the real server twice in one world (two registration orders, two listeners); 4..24 requests (hits with random param values, near misses: suffix/prefix bytes, extra/empty/missing segments, doubled and trailing slashes, percent-encoded statics, other methods, HEAD) travel over keep-alive connections so that consecutive requests of different shapes share one Request object; each outcome (handler id, captured params, 404) is compared with a segment-wise reference router and between the two registration orders.",
+            "Trusts the reference router (DESIGN.md A.3) and the facade; <= 2 params per route; mount prefixes exclusive; where the statement can be read two ways (backtracking, method-specific trees) both are accepted and counted.",
+            "reference router model on live keep-alive connections; registration-order metamorphic check"),
     "C02": ("DESIGN.md 5.C02",
             "Seeded exploration: every run sends one generated request (well-formed / unambiguously malformed / grey) as the first segment of a fresh simulated connection to the real Ohkami::howl + Session::manage; the dump a root fang produces through the public accessors is compared with an independent reference parse; panics, hangs (quiescence with a complete message delivered) and acceptance of malformed input are violations. EOF/FIN/silence are injected at every byte offset. Sampling, not proof.",
             "Trusts the facade tokio (read/read_exact/write_all semantics), the reference request model (DESIGN.md A.1) and the independent response parser; heads <= 1023 bytes for class W; whole input arrives in one read (segmentation is C06).",
@@ -17,6 +21,10 @@ CLAIMED = {
             "Seeded exploration: a handler and a fang's back action interpret a generated operation script (all 44 non-framing standard setters, custom names, Set-Cookie with directives, text/html/json/raw payloads, drop_content, streams, remove-then-set cycles up to 300 long, every status class) against a Response inside the real server; the bytes a simulated client receives over a socket with short writes, tiny windows and slow reads are parsed by an independent HTTP/1.1 parser and compared with a header-map model (every live header once with its latest value, nothing removed or stale, framing by rule, Date = IMF-fixdate of the simulated clock), a second request on the same connection must be answered, and hook K4 reports any write past the reserved capacity.",
             "Trusts the independent response parser and the header-map model (DESIGN.md A.2); header values without CR/LF/NUL; no direct writes to framing headers; custom names distinct case-insensitively; 1xx/304 only without content.",
             "header-map reference model + independent wire parser + capacity probe, under injected short writes/back-pressure"),
+    "C04": ("DESIGN.md 5.C04",
+            "Seeded exploration: generated application trees with 0..8 traced fangs per application (hand-written Fang/FangProc and FangAction kinds, some yielding or sleeping so that sessions overlap inside a fang), 0..4 local fangs per handler and nested mounts run in the real server; every request (hits, misses inside/outside each mount, every method, Stop requests aimed at any fang) carries its own inbound/outbound trace in request context and response headers, which is compared with the onion/scope model. Several connections run concurrently under the tape-driven scheduler.",
+            "Trusts the scope model (DESIGN.md A.4) and C01's router model; the property's side condition (one application per mount prefix) is enforced by the generator; routing-ambiguous requests are skipped.",
+            "onion-order/scope reference model with per-request traces under interleaved sessions"),
     "C05": ("DESIGN.md 5.C05",
             "Seeded exploration, metamorphic oracle: 1..3 keep-alive connections carrying 2..12 generated requests each (bodies with NUL bytes, sizes around the 1 KiB buffer, context-setting requests, param routes, a malformed request in the middle, Connection: close at any position) run against the real session loop; response k must equal, byte for byte after masking Date, the response to the same request alone on a fresh connection in the same world, and that baseline is itself checked against the reference model. Sessions interleave under the tape-driven scheduler.",
             "Trusts the facade tokio, the response parser and the reference model; one segment per request (the property's own framing); malformed requests in the middle are < 1 KiB.",
